@@ -86,6 +86,8 @@ static void fiber_manager_destroy(fiber_manager_t* manager) {
 
 static void* fiber_manager_thread_func(void* param);
 
+static __thread bool should_check_events = true;
+
 static inline void fiber_manager_switch_to(fiber_manager_t* manager,
                                            fiber_t* old_fiber,
                                            fiber_t* new_fiber) {
@@ -110,6 +112,15 @@ void fiber_manager_yield(fiber_manager_t* manager) {
   while (1) {
     manager->yield_count += 1;
     const fiber_state_t state = current_fiber->state;
+
+    // threads that always have a runnable fiber never reach the idle loop;
+    // look for timer and I/O events now and then so that sleeping and
+    // fd-blocked fibers are not starved by fibers that keep yielding. only a
+    // plain yield may do this: a suspending fiber can hold an event spinlock.
+    if (FIBER_STATE_RUNNING == state && (manager->yield_count & 255) == 0 &&
+        should_check_events) {
+      fiber_poll_events();
+    }
 
     fiber_t* const new_fiber = fiber_scheduler_next(manager->scheduler);
     if (new_fiber) {
@@ -146,8 +157,6 @@ void* fiber_load_symbol(const char* symbol) {
 }
 
 static __thread fiber_manager_t* fiber_the_manager = NULL;
-
-static __thread bool should_check_events = true;
 
 fiber_manager_t* fiber_manager_get() { return fiber_the_manager; }
 
